@@ -11,9 +11,11 @@
 #include <sched.h>
 #include <unistd.h>
 
-#define NKEY 9
-static const char *KSPEC[NKEY] = { "oct:32", "oct:64", "rsa:2048", "rsa:2048", "ec:P-256", "ec:P-384", "ec:P-521", "okp:Ed25519", "okp:Ed448" };
-static const int KALG[NKEY] = { JWT_ALG_HS256, JWT_ALG_HS512, JWT_ALG_RS256, JWT_ALG_PS256, JWT_ALG_ES256, JWT_ALG_ES384, JWT_ALG_ES512, JWT_ALG_EDDSA, JWT_ALG_EDDSA };
+#define NKEY 12
+/* the first three keys share one algorithm, two of them longer than the block of every hash (a provider that pre-hashes long keys has
+ * per-call state there); they are the hot set of the first repeat */
+static const char *KSPEC[NKEY] = { "oct:129", "oct:200", "oct:32", "oct:64", "oct:300", "rsa:2048", "rsa:2048", "ec:P-256", "ec:P-384", "ec:P-521", "okp:Ed25519", "okp:Ed448" };
+static const int KALG[NKEY] = { JWT_ALG_HS256, JWT_ALG_HS256, JWT_ALG_HS256, JWT_ALG_HS512, JWT_ALG_HS512, JWT_ALG_RS256, JWT_ALG_PS256, JWT_ALG_ES256, JWT_ALG_ES384, JWT_ALG_ES512, JWT_ALG_EDDSA, JWT_ALG_EDDSA };
 static vh_key_t K[NKEY];
 static jwk_set_t *ring;			/* the one shared keyring */
 static const jwk_item_t *PRIV_B[NKEY], *PUB_B[NKEY];	/* private copy for the sequential baseline */
